@@ -124,6 +124,14 @@ def _misalign_uid(v, value):
     v.uid = value % {"uid": v.uid, "id": v.id}
 
 
+def _respell_dashes(v, value):
+    """A child's UID that differs from <parent UID>-<id> ONLY in its dashes."""
+    want = "%s-%s" % (v.parent.uid, v.id)
+    new = {"none": want.replace("-", ""), "doubled": want.replace("-", "--"), "leading": "-" + want, "trailing": want + "-",
+           "moved": want.replace("-", "", 1)[:-1] + "-" + want[-1:]}[value]
+    v.uid = new if new != want else want.replace("-", "--")
+
+
 def _unified_extra(img, value):
     img.unified = False
     img.additional_variants = value
@@ -137,6 +145,12 @@ def _ti_image_abs(ti, value):
 
 def _ti_image_platform(ti, value):
     ti.images.images[value] = {"kernel": "images/vmlinuz"}
+
+
+def _ti_lone_media_number(ti, value):
+    field, v = value
+    ti.media.discnum = ti.media.totaldiscs = None
+    setattr(ti.media, field, v)
 
 
 def _ti_image_arch_platform(ti, value):
@@ -198,6 +212,10 @@ SLOTS += [
          apply=_arch_of_top_not_parent, backs=["composeinfo.Variant._validate_parent_arch"]),
     Slot("composeinfo", "variant.child-arch-outside-parent", _ci_children, ["sparc", "mips", "sparc64v"], apply=_foreign_arch,
          backs=["composeinfo.Variant._validate_parent_arch"]),
+    Slot("composeinfo", "variant.child-uid-differs-in-dashes-only", _ci_children, ["none", "doubled", "leading", "trailing", "moved"],
+         apply=_respell_dashes, backs=["composeinfo.Variant._validate_uid"]),
+    Slot("treeinfo", "variant.child-uid-differs-in-dashes-only", _ti_children, ["none", "doubled", "leading", "trailing", "moved"],
+         apply=_respell_dashes, backs=["treeinfo.Variant._validate_uid"]),
     Slot("composeinfo", "variant.uid-misaligned", _ci_variants, ["%(uid)sX", "Z-%(id)s", "X%(uid)s"], apply=_misalign_uid,
          backs=["composeinfo.Variant._validate_uid"]),
     attr_slot("composeinfo", "variant.release.version", lambda ci: [v.release for v in _ci_lp_variants(ci)], "version",
@@ -251,6 +269,9 @@ SLOTS += [
          apply=_ti_image_abs, backs=["treeinfo.Images._validate_image_paths"]),
     Slot("treeinfo", "images.platform-not-listed", lambda ti: [ti], ["sparc64x", "nowhere"], apply=_ti_image_platform,
          backs=["treeinfo.Images._validate_platforms"]),
+    Slot("treeinfo", "media.lone-number-not-an-integer", lambda ti: [ti],
+         [("discnum", "1"), ("totaldiscs", "2"), ("discnum", 1.5), ("totaldiscs", [1]), ("discnum", (1,)), ("totaldiscs", b"1")],
+         apply=_ti_lone_media_number, backs=["treeinfo.Media._validate_discnum", "treeinfo.Media._validate_totaldiscs"]),
     Slot("treeinfo", "images.tree-arch-platform-not-listed", lambda ti: [ti], ["(tree arch)"], apply=_ti_image_arch_platform,
          backs=["treeinfo.Images._validate_platforms"]),
     attr_slot("treeinfo", "stage2.mainimage-absolute", lambda ti: [ti.stage2], "mainimage", ["/abs/squashfs.img", "/"],
